@@ -81,6 +81,56 @@ class Impl(object):
         import io
         self.io = io
 
+    # ---- configuration at global / network / channel / network+channel level ----
+    NETS = ('vtneta', 'vtnetb')           # networks with an Irc object; vtneta always carries network-level values
+
+    def ensure_networks(self):
+        if getattr(self, '_nets', False):
+            return
+        from supybot import irclib, world
+        for n in self.NETS:
+            self.conf.registerNetwork(n)
+            if world.getIrc(n) is None:
+                irclib.Irc(n)
+        self._nets = True
+
+    def scoped_groups(self):
+        c = self.conf.supybot.commands
+        return {'brackets': c.nested.brackets, 'pipeSyntax': c.nested.pipeSyntax, 'quotes': c.quotes}
+
+    def apply_scoped(self, sc):
+        """sc: dict(nested=bool, glob={setting: v}, net={net: {setting: v}}, chan={chan: {setting: v}},
+        netchan={(net, chan): {setting: v}}) — set in this order (parents before children)"""
+        self.ensure_networks()
+        self._conf = None
+        c = self.conf.supybot.commands
+        c.nested.setValue(sc['nested'])
+        g = self.scoped_groups()
+        for k, v in sc['glob'].items():
+            g[k].setValue(v)
+        for net, d in sc['net'].items():
+            for k, v in d.items():
+                g[k].get(':' + net).setValue(v)
+        for chan, d in sc['chan'].items():
+            for k, v in d.items():
+                g[k].get(chan).setValue(v)
+        for (net, chan), d in sc['netchan'].items():
+            for k, v in d.items():
+                g[k].get(':' + net).get(chan).setValue(v)
+
+    def tokenize_at(self, s, network, channel):
+        try:
+            r = self.callbacks.tokenize(s, channel=channel, network=network)
+        except SyntaxError as e:
+            return 'syntax\t' + classify(str(e)), None
+        except RecursionError:
+            return 'crash\tRecursionError', None
+        except Exception as e:
+            return 'crash\t' + type(e).__name__, None
+        if not well_formed(r):
+            return 'crash\tnot-a-tree', None
+        return 'tree\t' + enc_trees(r), r
+
     def set_conf(self, nested, brackets, pipe, quotes):
         key = (nested, brackets, pipe, quotes)
         if key == self._conf:
@@ -152,6 +202,39 @@ class Impl(object):
         except ValueError as e:
             return 'ValueError\t' + classify(str(e))
         return 'ok\t' + enc_cps(r)
+
+def effective(sc, network, channel):
+    """the configuration in force for (network, channel), from what the harness SET (never asking the
+    registry): a network counts only if the bot is connected to it, a channel only if it is a channel
+    name; network+channel beats network beats channel beats global"""
+    net = network if network in Impl.NETS else None
+    chan = channel if (channel and channel[:1] in '#&+!') else None
+    out = {}
+    for k, gv in sc['glob'].items():
+        v = gv
+        if chan is not None and k in sc['chan'].get(chan, {}):
+            v = sc['chan'][chan][k]
+        if net is not None and k in sc['net'].get(net, {}):
+            v = sc['net'][net][k]
+        if net is not None and chan is not None and k in sc['netchan'].get((net, chan), {}):
+            v = sc['netchan'][(net, chan)][k]
+        out[k] = v
+    return (sc['nested'], out['brackets'], out['pipeSyntax'], out['quotes'])
+
+_scope_counter = [0]
+def gen_scoped(r):
+    _scope_counter[0] += 1
+    k = _scope_counter[0]
+    cx, cy, cz = '#s%dx' % k, '#s%dy' % k, '#s%dz' % k
+    def vals():
+        return {'brackets': r.choice(BRACKETS), 'pipeSyntax': r.random() < 0.5, 'quotes': r.choice(['"', '"', '"\'', '`"', "'", ''])}
+    def some(d):
+        return {kk: v for kk, v in d.items() if r.random() < 0.6}
+    sc = dict(nested=r.random() < 0.9, glob=vals(), net={'vtneta': vals()}, chan={cx: some(vals())},
+              netchan={('vtneta', cx): some(vals()), ('vtnetb', cy): some(vals())})
+    if r.random() < 0.5:
+        sc['chan'][cy] = some(vals())
+    return sc, [cx, cy, cz]
 
 def quote(x):
     """the argument written in double quotes with backslash escaping (the property's writer)"""
@@ -321,11 +404,16 @@ class Explorer(object):
     def add(self, case, line):
         self.cases.append(case); self.lines.append(line); self.pend.append(case)
 
-    def tok(self, cf, s, kind, expect=None, finding=None, extra_tags=()):
-        """expect: python tree the property statement requires (None = only totality)"""
+    def tok(self, cf, s, kind, expect=None, finding=None, extra_tags=(), at=None, scope=None):
+        """expect: python tree the property statement requires (None = only totality).
+        at = (network, channel): tokenize is called with these arguments under the scoped configuration
+        `scope` already applied; `cf` is then the effective configuration computed by the harness"""
         if not valid_unicode(s):
             return
-        out, r = self.impl.tokenize(cf, s)
+        if at is not None:
+            out, r = self.impl.tokenize_at(s, at[0], at[1])
+        else:
+            out, r = self.impl.tokenize(cf, s)
         ok = True; msg = ''
         if out.startswith('crash'):
             ok = False; msg = 'tokenize(%r) under %r: %s (neither a token tree nor a SyntaxError)' % (s, conf_input(cf), out.split('\t')[1])
@@ -347,6 +435,13 @@ class Explorer(object):
             if cf[2] and cf[0] and '|' in s: tags.append('pipe')
         c = Case(dict(op='tok', s=s, **conf_input(cf)), impl=out, oracle_ok=ok, oracle_msg=msg, kind=kind,
                  tags=tags, finding=(finding if not ok else None))
+        if at is not None:
+            c.input['network'] = at[0]; c.input['channel'] = at[1]
+            c.input['scope'] = dict(nested=scope['nested'], glob=scope['glob'], net=scope['net'], chan=scope['chan'],
+                                    netchan=[[n, ch, d] for (n, ch), d in scope['netchan'].items()])
+            if not ok:
+                c.oracle_msg = 'with the configuration set at global/network/channel level as in input.scope, network=%r channel=%r (effective %r): %s' % (
+                    at[0], at[1], conf_input(cf), msg)
         if expect is not None:
             c.input['expect'] = expect
         self.add(c, conf_line(cf, s))
@@ -401,6 +496,33 @@ def explore(impl, r, n, corpus=()):
         s = render_bare(r, items, b[0], b[1])
         if not valid_unicode(s): continue
         ex.tok(cf, s, 'nestw', expect=bare_value(items), extra_tags=('w:nestw',))
+    n_sc = n.get('scoped', 0)
+    while n_sc > 0:
+        sc, chans = gen_scoped(r)
+        impl.apply_scoped(sc)
+        for _ in range(12):
+            n_sc -= 1
+            at = (r.choice([None, None, 'vtneta', 'vtnetb', 'nonet']), r.choice([None] + chans + chans + ['notachannel']))
+            cf = effective(sc, at[0], at[1])
+            x = r.random()
+            if x < 0.35:
+                ex.tok(cf, gen_raw(r), 'scoped', at=at, scope=sc, extra_tags=('scoped',))
+            elif x < 0.55 and '"' in cf[3]:
+                xs = gen_args(r)
+                if all(valid_unicode(a) for a in xs):
+                    ex.tok(cf, ' '.join(quote(a) for a in xs), 'scoped', expect=xs, at=at, scope=sc, extra_tags=('scoped', 'w:quote'))
+            elif x < 0.75 and cf[0] and cf[1] and '"' in cf[3]:
+                t = gen_tree(r, r.randint(0, 3))
+                s2 = ' '.join(render(a, cf[1][0], cf[1][1], ' ') for a in t)
+                ex.tok(cf, s2, 'scoped', expect=t, at=at, scope=sc, extra_tags=('scoped', 'w:nest'))
+            else:
+                # the pipe syntax: on => `a | b` is `b [a]`; off => `|` is an ordinary word
+                seg = lambda: [''.join(r.choice('abcxyz019') for _ in range(r.randint(1, 4))) for _ in range(r.randint(1, 3))]
+                a, b = seg(), seg()
+                want = (b + [a]) if (cf[0] and cf[2]) else (a + ['|'] + b)
+                ex.tok(cf, ' '.join(a) + ' | ' + ' '.join(b), 'scoped', expect=want, at=at, scope=sc,
+                       extra_tags=('scoped', 'pipe-on' if (cf[0] and cf[2]) else 'pipe-off'))
+    impl._conf = None
     for _ in range(n.get('deep', 0)):
         d = r.randint(50, 200)
         b = r.choice(BRACKETS[1:])
@@ -476,7 +598,7 @@ def finding_status(impl):
             st[f['id']] = (bool(bad), 'tokenize(%r) = %r: a token that cannot be encoded (lone surrogate)' % (w['s'], r if r is not None else out))
     return st
 
-COUNTS_QUICK = dict(raw=80000, quote=30000, dqrepr=20000, nest=12000, nestw=12000, deep=40, T=15000, lex=25000, handle=25000, uesc=20000, writers=6000)
+COUNTS_QUICK = dict(raw=80000, quote=30000, dqrepr=20000, nest=12000, nestw=12000, scoped=12000, deep=40, T=15000, lex=25000, handle=25000, uesc=20000, writers=6000)
 
 def run(ctx):
     build = leanbuild.ensure(PROPERTY, THEOREMS, thorough=ctx.thorough, extractors=['Tokenizer'])
@@ -501,7 +623,7 @@ def run(ctx):
                 for b in BRACKETS:
                     seeds.append(dict(s=t, brackets=b, pipeSyntax=bool(i.get('pipe', False)), quotes=i.get('quotes', '"') or '"'))
                     seeds.append(dict(xs=[t], brackets=b, quotes='"'))
-        more = explore(impl, rr, dict(raw=60000, quote=40000, nest=15000, nestw=15000, deep=20), seeds)
+        more = explore(impl, rr, dict(raw=60000, quote=40000, nest=15000, nestw=15000, scoped=20000, deep=20), seeds)
         return [c for c in more.cases if c.oracle_ok is False]
     return verdict.conclude(PROPERTY, ctx.tier, ctx.seed, build, cases, search=search, rule=RULE,
                             finding_status=finding_status(impl), trusted_base=TRUSTED,
@@ -521,7 +643,15 @@ def replay(ctx, path):
     if not c:
         return 0
     i = c['input']
-    if i.get('op') == 'tok':
+    if i.get('op') == 'tok' and 'scope' in i:
+        sc = dict(i['scope']); sc['netchan'] = {(n, ch): d for n, ch, d in sc['netchan']}
+        impl.apply_scoped(sc)
+        out, r = impl.tokenize_at(i['s'], i['network'], i['channel'])
+        print('implementation now: tokenize(%r, channel=%r, network=%r) -> %s' % (i['s'], i['channel'], i['network'], repr(r) if r is not None else out))
+        if 'expect' in i:
+            print('required (effective pipeSyntax=%r brackets=%r quotes=%r nested=%r): %r   %s' % (
+                i['pipeSyntax'], i['brackets'], i['quotes'], i['nested'], i['expect'], 'OK' if r == i['expect'] else 'FAILS'))
+    elif i.get('op') == 'tok':
         out, r = impl.tokenize((i['nested'], i['brackets'], i['pipeSyntax'], i['quotes']), i['s'])
         print('implementation now: tokenize(%r) -> %s' % (i['s'], repr(r) if r is not None else out))
         if 'expect' in i:
